@@ -575,6 +575,30 @@ def b_native(B):
         if not np.allclose(F.dft(x, xscale=xi_, kscale=np.arange(n)), want, atol=1e-9):
             bad.append(("dft with irregular positions", n))
     B.case("dft_vs_fft", not bad, detail=bad[:5])
+    # 2-D: full regular grids of every parity against fft2, a subset of the wavenumbers, off-grid positions against the double sum; real and complex input
+    bad2 = []
+    for n0, n1 in ((1, 1), (2, 3), (3, 2), (4, 4), (5, 6), (6, 5), (7, 7), (8, 3)):
+        for cplx in (False, True):
+            nt = 3
+            img = rng.standard_normal((n0, n1, nt)) + (1j * rng.standard_normal((n0, n1, nt)) if cplx else 0)
+            ii, jj = [v.flatten() for v in np.meshgrid(np.arange(n0), np.arange(n1), indexing="ij")]
+            x = img.reshape(n0 * n1, nt)
+            got = F.dft2(x, ii / n0, jj / n1, n0, n1)
+            want = np.fft.fft2(img, axes=(0, 1))
+            if got.shape != (n0, n1, nt) or not np.allclose(got, want, atol=1e-9):
+                bad2.append(("full grid vs fft2", n0, n1, "complex" if cplx else "real"))
+            for nk, nl in ((max(1, n0 - 1), n1), (n0, max(1, n1 // 2)), (n0 + 1, n1 + 2)):
+                got = F.dft2(x, ii / n0, jj / n1, nk, nl)
+                kk, ll = np.arange(nk), np.arange(nl)
+                want = np.einsum("ka,lb,abt->klt", np.exp(-2j * np.pi * np.outer(kk, np.arange(n0)) / n0), np.exp(-2j * np.pi * np.outer(ll, np.arange(n1)) / n1), img)
+                if got.shape != (nk, nl, nt) or not np.allclose(got, want, atol=1e-9):
+                    bad2.append(("other number of wavenumbers than grid points", n0, n1, nk, nl, "complex" if cplx else "real"))
+            r_, c_ = rng.uniform(0, 1, n0 * n1), rng.uniform(0, 1, n0 * n1)
+            got = F.dft2(x, r_, c_, n0, n1)
+            want = np.stack([[np.exp(-2j * np.pi * (r_ * k_ + c_ * l_)) @ x for l_ in range(n1)] for k_ in range(n0)])
+            if got.shape != (n0, n1, nt) or not np.allclose(got, want, atol=1e-9):
+                bad2.append(("irregular positions vs the double sum", n0, n1, "complex" if cplx else "real"))
+    B.case("dft2_vs_fft2_and_definition", not bad2, detail=bad2[:5])
     # cosine taper
     fc = U.fcn_cosine([2.0, 5.0])
     xs = np.linspace(-1, 8, 500)
